@@ -53,6 +53,19 @@ Definition sval := (option markup * flat_text)%type.
 Definition sctor (m : option markup) (vs : list sval) : sval :=
   (m, push_opt m (concat (map snd vs))).
 
+(* text[i] on a sequence; add_period on a sequence *)
+Definition last_atom (f : flat_text) : option atom :=
+  match rev f with p :: _ => Some (fst p) | [] => None end.
+Definition is_term (c : char) : bool := N.eqb c 46 || N.eqb c 63 || N.eqb c 33.     (* . ? ! *)
+Definition terminated_flat (f : flat_text) : bool :=
+  match last_atom f with Some (ACh c) => is_term c | _ => false end.
+Definition add_period_flat (m : option markup) (f : flat_text) (p : str) : flat_text :=
+  if negb (Nat.eqb (length f) 0) && negb (terminated_flat f)
+  then f ++ push_opt m (map (fun c => (ACh c, [])) p) else f.
+(* str.isalpha on a sequence (ASCII letters; a symbol is not a letter) *)
+Definition isalpha_flat (f : flat_text) : bool :=
+  negb (Nat.eqb (length f) 0) && forallb (fun p : pair => match fst p with ACh c => is_alpha c | ASym _ => false end) f.
+
 Fixpoint spec (e : expr) : option sval :=
   match e with
   | EStr s => Some (None, map (fun c => (ACh c, [])) s)
@@ -64,6 +77,12 @@ Fixpoint spec (e : expr) : option sval :=
   | EUpper a => option_map (fun r : sval => (fst r, map (conv_pair true) (snd r))) (spec a)
   | ELower a => option_map (fun r : sval => (fst r, map (conv_pair false) (snd r))) (spec a)
   | ESlice a i j => option_map (fun r : sval => (fst r, pyslice (snd r) i j)) (spec a)
+  | EIndex a i =>     (* outside the bounds str raises IndexError (multipart texts do not: F23): not covered *)
+    match spec a with
+    | Some r => match pyindex (snd r) i with Some p => Some (fst r, [p]) | None => None end
+    | None => None
+    end
+  | EAddPeriod a p => option_map (fun r : sval => (fst r, add_period_flat (fst r) (snd r) p)) (spec a)
   | ECapfirst a =>
     option_map (fun r : sval => (match fst r with Some MProt => fst r | _ => None end, capfirst_flat (snd r))) (spec a)
   | ECapitalize a =>
@@ -83,7 +102,7 @@ Fixpoint spec (e : expr) : option sval :=
     | Some rs, Some rl => Some (None, join_flat (snd rs) (map snd rl))
     | _, _ => None
     end
-  | _ => None      (* not covered: malformed parts, int index, add_period, abbreviate, split *)
+  | _ => None      (* not covered: malformed parts, abbreviate, split (F17s) *)
   end.
 
 Definition top_e (t : rt) : option markup := option_map erase_m (top_markup t).
@@ -159,3 +178,6 @@ Fixpoint normal (t : rt) : bool :=
   end.
 Definition normal_parts (ps : list rt) : bool :=
   forallb (fun p => nonempty p && not_text p && normal p) ps && adjacent_ok ps.
+
+(* the texts the API builds: in normal form and well-formed (Proofs: mkc_good, eval_good) *)
+Definition good (t : rt) : Prop := normal t = true /\ wf t.
